@@ -450,12 +450,12 @@ func c08RaceBuild() string {
 		// a scratch tree is under check: an alternative go.mod of our own (go.alt.mod of the driver is shared by every
 		// engineer checking a scratch tree at the same time)
 		hs := filepath.Join(root, "harness")
-		alt := filepath.Join(hs, "go.alt.c08race.mod")
+		alt := filepath.Join(binDir(), "go.c08race.mod") // with its go.c08race.sum next to it
 		mod, err1 := os.ReadFile(filepath.Join(hs, "go.mod"))
 		sum, err2 := os.ReadFile(filepath.Join(hs, "go.sum"))
 		if err1 != nil || err2 != nil || !strings.Contains(string(mod), "=> /repo") ||
 			os.WriteFile(alt, []byte(strings.ReplaceAll(string(mod), "=> /repo", "=> "+repo)), 0o644) != nil ||
-			os.WriteFile(filepath.Join(hs, "go.alt.c08race.sum"), sum, 0o644) != nil {
+			os.WriteFile(filepath.Join(binDir(), "go.c08race.sum"), sum, 0o644) != nil {
 			stat("conc:race-build-no-alt-mod")
 			return ""
 		}
